@@ -150,7 +150,9 @@ Proof.
     destruct (get_pc (pcs s) t); try discriminate.
     assert (P : wake_inv c (proceed c s t k)).
     { apply (proceed_wake c s t k (length (woken s)) Hc); [exact W|zlia]. }
-    destruct (take_idle k (idle s)); [injection H as <-; intro Hc'; apply P; exact Hc'|].
+    destruct (if connect_fast_path (avail c s k) then take_idle k (idle s) else None);
+      [injection H as <-; intro Hc'; apply P; exact Hc'|].
+    unfold start_tail in H.
     destruct (connect_must_wait (avail c s k)) eqn:Ew; [|injection H as <-; intro Hc'; apply P; exact Hc'].
     apply must_wait_true in Ew. unfold avail in Ew. rewrite Hl in Ew.
     apply avail_total_only_nonpos in Ew; [|exact HL].
@@ -165,8 +167,10 @@ Proof.
         intros (t' & k' & X). apply W. exists t', k'. exact X.
       * apply slot_found_false in Ef. unfold avail in Ef. rewrite Hl in Ef. cbn [s1 with_woken acquired hostacq] in Ef.
         apply avail_total_only_nonpos in Ef; [|exact HL].
-        destruct (refuse_wait s1); injection H as <-; intros _ _;
-          cbn [with_pc with_waiters with_woken acquired woken]; zlia.
+        unfold requeue in H. destruct (hand_on c s1 order) as [s2|] eqn:Eh; [|discriminate].
+        destruct (hand_on_frame _ _ _ _ Eh) as (A & _).
+        destruct (refuse_wait s2); injection H as <-; intros _ _;
+          cbn [with_pc with_waiters acquired woken]; rewrite A; cbn [s1 with_woken acquired]; zlia.
     + injection H as <-. intros _ (t' & k' & X). cbn [with_pc with_waiters acquired woken waiters] in *.
       apply filter_In in X as [X _]. apply W. exists t', k'. exact X.
     + set (s1 := with_woken s (filter (fun x => negb (x =? t)) (woken s))) in *.
